@@ -15,11 +15,11 @@ def run(tier):
     violations, distinct, samples = [], set(), []
     states = transitions = validated = evaluations = 0
     plans = [
-        ("bfs", "thread", dict(agents=(0,), maxch=2, maxreg=1, maxslots=1, maxops=3, regionlens=(2,))),
-        ("sim-process", "process", dict(agents=(0, 1), maxch=3, maxreg=2, maxslots=2, maxops=20, minops=10, maxqueue=3,
+        ("bfs", "thread", dict(failsends=True, agents=(0,), maxch=2, maxreg=1, maxslots=1, maxops=3, regionlens=(2,))),
+        ("sim-process", "process", dict(failsends=True, agents=(0, 1), maxch=3, maxreg=2, maxslots=2, maxops=20, minops=10, maxqueue=3,
                                         regionlens=(0, 1, 3, 4), kinds=("typed", "bytes"),
                                         simulate=30 if tier == "quick" else 400, depth=150, tlcseed=seed())),
-        ("sim-thread", "thread", dict(agents=(0, 1), maxch=4, maxreg=2, maxslots=3, maxops=40, minops=20, maxqueue=4,
+        ("sim-thread", "thread", dict(failsends=True, agents=(0, 1), maxch=4, maxreg=2, maxslots=3, maxops=40, minops=20, maxqueue=4,
                                       regionlens=(0, 2, 5), kinds=("typed", "bytes"),
                                       simulate=20 if tier == "quick" else 400, depth=250, tlcseed=seed() + 1)),
     ]
